@@ -5,7 +5,7 @@
 (* Logical operators only get boolean-valued operands (well-typedness:     *)
 (* Python's and/or return an operand, pymbolic's evaluator a bool).        *)
 (***************************************************************************)
-EXTENDS C02_Env, Json
+EXTENDS C02_Env, C06_Stringify, C07_PyGrammar, Json
 CONSTANT Tier
 VARIABLES tree, listed
 
@@ -80,6 +80,22 @@ Next == \/ /\ NHoles(tree) > 0
            /\ listed' \in (IF Tier = "quick" THEN ListingsQ ELSE Listings)
            /\ UNCHANGED tree
 Complete == NHoles(tree) = 0 /\ listed # Unset
-Emit == Complete => PrintT(ToJson([e |-> tree, listed |-> listed]))
+\* design-level check of the compile path: the printer's text (C06_Stringify; the compile
+\* mapper differs from it only in using repr for constants), read with PYTHON's grammar
+\* (C07_PyGrammar), must mean what the tree means in every environment of the box
+SourceMeansTree(e) ==
+    LET toks == Stringify(e) IN
+    IF ~Printable(toks) THEN "SKIP"
+    ELSE LET r == PyParse(toks) IN
+         IF ~r.ok THEN "generated-source-is-not-python"
+         ELSE IF \A i \in 1..Len(Envs) :
+                    LET a == Eval(e, Envs[i]) b == Eval(r.e, Envs[i]) IN
+                    IsUnrep(a) \/ IsUnrep(b) \/ (IsErr(a) /\ IsErr(b))
+                    \/ (~IsErr(a) /\ ~IsErr(b) /\ ValEq(a, b))
+              THEN "OK" ELSE "generated-source-means-something-else"
+Emit == Complete =>
+    /\ PrintT(ToJson([e |-> tree, listed |-> listed]))
+    /\ (listed # << >> \/ SourceMeansTree(tree) \in {"OK", "SKIP"}
+        \/ PrintT(ToJson([design |-> SourceMeansTree(tree), de |-> tree])))
 ASSUME PrintT(ToJson([envs |-> Envs]))
 =============================================================================
